@@ -50,6 +50,7 @@ def cases(tier, seed):
         out = [(sc, dict(c, delay={"mode": "choice", "arity": 3})
                 if c["alg"]["kind"] in ("queue", "batch") else c)
                for sc, c in out]
+    out += common.add_algs(common.park_scope(lvl), common.park_algs)
     return common.rotate(out, seed)
 
 
